@@ -60,7 +60,10 @@ pub fn make_chooser(src: &mut Src, nthreads: usize, horizon: usize, rep: &mut Re
         }
         2 => {
             rep.class("schedule:pct");
-            Box::new(Pct::from_src(src, nthreads, horizon))
+            let mut p = Pct::from_src(src, nthreads, horizon);
+            // room for a held-back finalizer thread (lowest priority)
+            p.prio.push(-1_000_000);
+            Box::new(p)
         }
         _ => {
             rep.class("schedule:window");
